@@ -406,6 +406,16 @@ def jobs(tier):
     from harness import C16_radial
 
     js += C16_radial.jobs(tier)
+    # the two places that map gradient geometry through a transform: re-basing a gradient onto a reused outline
+    # (write_font._migrate_paths_to_ufo_glyphs, incl. its overflow fallbacks) and the OT-SVG emitter's split into
+    # mapped circles + gradientTransform (svg._apply_gradient_paint, incl. its gradient cache)
+    from harness import C06, C02
+
+    for k in ("linear", "radial", "transform>linear", "transform>radial"):
+        js.append(Job(f"migrate[{k}]", C06.job_migrate, paint=k))
+    for sc in C02.SCENARIOS:
+        if "radial" in sc or "residual" in sc:
+            js.append(Job(f"otsvg docs[{sc}]", C02.job_docs, scenario=sc, affine="translation"))
     return js
 
 
